@@ -418,6 +418,22 @@ M("C18", "new-api-reservoir-mut", (RS, _RS_A, "    /// Mutable access to the sam
 B("C05", "new-api-replace-rng", (RS, _RS_A, "    /// Swap the random number generator.\n    pub fn replace_rng(&mut self, rng: R) -> R {\n        std::mem::replace(&mut self.rng, rng)\n    }\n\n" + _RS_A))
 B("C18", "new-api-add-all-by-public-calls", (RS, _RS_A, "    /// Observe all data points of a vector.\n    pub fn add_all(&mut self, objs: Vec<T>) {\n        for obj in objs {\n            self.add(obj);\n        }\n    }\n\n" + _RS_A))
 
+# ---- clauses added after the hardening round (round 15)
+_WALK_OLD = "                while (j != i) && other.is_shifted[j] {"
+_WALK_TAIL_OLD = "                        return Err(err);\n                    }\n\n                    self.incr(&mut j)\n                }"
+_WALK_TAIL_NEW = "                        return Err(err);\n                    }\n\n                    copied += 1;\n                    self.incr(&mut j)\n                }"
+M("C01", "qf-union-walk-capped-one-short", [(QF, _WALK_OLD, "                let cap = other.is_occupied.len() - 1;\n                let mut copied = 1usize;\n                while (copied < cap) && (j != i) && other.is_shifted[j] {"), (QF, _WALK_TAIL_OLD, _WALK_TAIL_NEW)], "R06-quotient-transfer", "union")
+B("C01", "qf-union-walk-capped-at-len", [(QF, _WALK_OLD, "                let cap = other.is_occupied.len();\n                let mut copied = 1usize;\n                while (copied < cap) && (j != i) && other.is_shifted[j] {"), (QF, _WALK_TAIL_OLD, _WALK_TAIL_NEW)])
+B("C06", "qf-union-walk-capped-at-len", [(QF, _WALK_OLD, "                let cap = other.is_occupied.len();\n                let mut copied = 1usize;\n                while (copied < cap) && (j != i) && other.is_shifted[j] {"), (QF, _WALK_TAIL_OLD, _WALK_TAIL_NEW)])
+_RS_OLD = "        for (pos, data) in log.iter().rev().cloned() {\n            self.table.set(pos as u64, data);\n        }"
+M("C12", "restore-state-writes-each-slot-once-newest-first", (CF, _RS_OLD, "        let mut done: Vec<usize> = Vec::new();\n        for (pos, data) in log.iter().rev().cloned() {\n            if done.contains(&pos) {\n                continue;\n            }\n            self.table.set(pos as u64, data);\n            done.push(pos);\n        }"), "R12-replay-helper", "restore_state")
+M("C14", "restore-state-writes-each-slot-once-newest-first", (CF, _RS_OLD, "        let mut done: Vec<usize> = Vec::new();\n        for (pos, data) in log.iter().rev().cloned() {\n            if done.contains(&pos) {\n                continue;\n            }\n            self.table.set(pos as u64, data);\n            done.push(pos);\n        }"), "R12-replay-helper", "restore_state")
+B("C12", "restore-state-bounds-guard", (CF, _RS_OLD, "        let len = self.table.len();\n        for (pos, data) in log.iter().rev().cloned() {\n            if (pos as u64) < len {\n                self.table.set(pos as u64, data);\n            }\n        }"))
+M("C15", "quantile-left-tail-single-sample-shortcut", (TD, "        if limit <= c_first.count * 0.5 {\n            let t = limit / (0.5 * c_first.count);", "        if limit <= c_first.count * 0.5 {\n            if c_first.count <= 1. {\n                return c_first.mean();\n            }\n            let t = limit / (0.5 * c_first.count);"), "R15-knots", "returns")
+M("C19", "lossy-clear-returns-early-when-table-empty", (LC, "    pub fn clear(&mut self) {\n        self.known = HashMap::new();", "    pub fn clear(&mut self) {\n        if self.known.is_empty() {\n            return;\n        }\n        self.known = HashMap::new();"), "R19-clear-covers-state", "n")
+B("C19", "lossy-clear-returns-early-when-fresh", (LC, "    pub fn clear(&mut self) {\n        self.known = HashMap::new();", "    pub fn clear(&mut self) {\n        if self.known.is_empty() && self.n == 0 {\n            return;\n        }\n        self.known = HashMap::new();"))
+B("C16", "n-samples-saturating", (TD, "self.n_samples += 1;", "self.n_samples = self.n_samples.saturating_add(1);"))
+
 
 def main():
     out = os.path.join(os.path.dirname(os.path.abspath(__file__)), "corpus.json")
